@@ -50,7 +50,7 @@ func Encoder_encode(content string, ecLevel decoder.ErrorCorrectionLevel, hints 
 		if eci, ok := common.GetCharacterSetECIByName(fmt.Sprintf("%v", encodingHint)); ok {
 			encoding = eci.GetCharset()
 		} else {
-			return nil, gozxing.NewWriterException(encodingHint)
+			return nil, gozxing.NewWriterException("%v", encodingHint)
 		}
 	}
 
